@@ -168,10 +168,10 @@ def oracle(c, out):
     cls = 'fractional-start' if frac else None
     if not ast <= now:
         return ('availabilityStartTime > now', cls)
+    if pub % 10**6 != 0:
+        return ('publishTime not on a whole second', None)
     if not (ast <= pub <= now):
         return ('publishTime %d outside [ast %d, now %d]' % (pub, ast, now), cls)
-    if pub % 10**6 != 0:
-        return ('publishTime not on a whole second', cls)
     if not (0 <= tsbd * 10**6 <= now - ast):
         return ('timeShiftBufferDepth %d outside [0, now-ast]' % tsbd, cls)
     if fta != now - ast - tsbd * 10**6 or fta < 0:
